@@ -635,6 +635,42 @@ template<class W> static void add_tree(std::vector<Task>& tasks, const Config& c
   tasks.push_back(t);
 }
 
+// integer weight types with weights that no double represents exactly (above 2^53): total weight, cells and estimates are integer
+// sums and must stay exact. Every sequence of up to 3 updates over 2 items x the huge-weight alphabet, then a merge with a copy.
+template<class W> static void huge_weights(Report& rep, const Config& cfg, const std::string& scen) {
+  if (!cfg.replay_scenario.empty() && cfg.replay_scenario != scen) return;
+  typedef count_min_sketch<W> Sk; typedef unsigned __int128 U;
+  const bool sg = std::is_signed<W>::value;
+  std::vector<W> ws; ws.push_back((W)((1ULL << 53) + 1)); ws.push_back((W)((1ULL << 60) + 3)); ws.push_back((W)1); ws.push_back((W)((1ULL << 62) - 1));
+  if (sg) { ws.push_back((W)(0 - (int64_t)((1ULL << 53) + 1))); ws.push_back((W)(0 - (int64_t)((1ULL << 60) + 3))); }
+  const size_t A = ws.size() * 2; uint64_t n = 0;
+  for (size_t len = 1; len <= 3; ++len) { size_t total = 1; for (size_t i = 0; i < len; ++i) total *= A;
+    for (size_t code = 0; code < total; ++code) {
+      std::string hist; size_t c = code; Sk sk(2, 4, 7); U tot = 0; __int128 truth[2] = {0, 0}; bool overflow = false;
+      for (size_t i = 0; i < len; ++i) { const size_t op = c % A; c /= A; const int item = (int)(op % 2); const W w = ws[op / 2];
+        hist += (i ? ";" : "") + std::string("u(i") + str(item) + "," + std::to_string((long long)w) + ")";
+        const __int128 sw = (__int128)w; tot += (U)(sw < 0 ? -sw : sw); truth[item] += sw;
+        if (tot > (U)(sg ? (uint64_t)INT64_MAX : UINT64_MAX)) overflow = true;
+        if (!overflow) sk.update((uint64_t)item, w); }
+      if (overflow) continue;
+      if (!cfg.replay_history.empty() && cfg.replay_history != hist) continue;
+      if (!journal(scen, hist)) continue;
+      Ctx ctx(rep, scen, hist);
+      ctx.ok("total-weight==sum-of-absolute-weights(exact)", (U)sk.get_total_weight() == tot, "total weight " + std::to_string((long long)sk.get_total_weight()) + " expected " + std::to_string((unsigned long long)tot));
+      if (!sg) for (int it = 0; it < 2; ++it) {
+        const W est = sk.get_estimate((uint64_t)it);
+        ctx.ok("estimate>=true-weight(exact)", (__int128)est >= truth[it], "item " + str(it) + " estimate " + std::to_string((unsigned long long)est));
+        ctx.ok("estimate<=total-weight(exact)", (U)est <= tot, "item " + str(it) + " estimate " + std::to_string((unsigned long long)est) + " total " + std::to_string((unsigned long long)tot));
+      }
+      if (tot <= (U)(sg ? (uint64_t)INT64_MAX : UINT64_MAX) / 2) { Sk a(sk), b(sk); a.merge(b); ctx.ok("merged-total-weight-exact", (U)a.get_total_weight() == 2 * tot, "merged total " + std::to_string((long long)a.get_total_weight())); }
+      rep.flush_ctx_fails(ctx.fails, scen, hist); ++n;
+    } }
+  journal_clear();
+  rep.evaluations += n; rep.states += n; rep.transitions += n; rep.traces += n;
+  rep.scenarios.push_back(scen + ": " + str(n) + " sequences of up to 3 updates with weights beyond 2^53");
+  rep.outcome(std::string("huge-weights|") + WName<W>::n());
+}
+
 int main(int argc, char** argv) {
   Config cfg = parse_args(argc, argv);
   std::string ht = oracle::self_test();
@@ -650,6 +686,7 @@ int main(int argc, char** argv) {
       rep.assumptions.push_back("signed scenarios go beyond the statement's non-negative premise and check only cell linearity, total weight == sum|w|, lb<=est<=ub and merge linearity");
       rep.sets("rule", "BFS over update/merge/refused-merge/round-trip on the product (sketch x exact counts x independent cell model x control sketch) to the fixpoint of the space of histories whose total weight sum|w| stays <= the stated bound (menu: 6 or 5 quick / 10 or 9 thorough; signed: 5/7; merge trees over three sketches: 5/8), no-op operations (weight 0, empty string, self merge, five kinds of incompatible merge in both directions, three serialize round trips followed by one update and one merge) probed in every state; complete grids for overload hashing and for the confidence family. Distinct = distinct outcome tag (emptiness, over-estimation present, absent item positive, estimate at total, operation kind and refusal outcome).");
     }; tasks.push_back(t); }
+  { Task t; t.name = "huge-weights"; t.fn = [&cfg](Report& rep) { huge_weights<uint64_t>(rep, cfg, "huge-weights/u64"); huge_weights<int64_t>(rep, cfg, "huge-weights/i64"); }; tasks.push_back(t); }
   { Task t; t.name = "hash-paths"; t.fn = [&cfg](Report& rep) { hash_paths_grid<uint64_t>(rep, cfg); hash_paths_grid<int64_t>(rep, cfg); hash_paths_grid<double>(rep, cfg); }; tasks.push_back(t); }
   const unsigned hs[] = {1, 2, 3}; const uint32_t bs[] = {3, 4, 5, 8}; const uint64_t seeds[] = {DEFAULT_SEED, 7};
   const unsigned dm = q ? 6 : 10;   // bound on the total stream weight of the menu systems (BFS runs to the fixpoint)
